@@ -19,7 +19,9 @@ CLAIMS = {
          'p0, p1) and symbolic state (all 18 states), pilots ending in symbolic '
          'order and final state; the solver-guided search exhausts the path tree '
          'and the post-state of every task is compared with "FAILED naming the '
-         'pilot iff bound to an ended pilot and not final, unchanged otherwise".',
+         'pilot iff bound to an ended pilot and not final, unchanged otherwise"; the '
+         'registration path add_pilots -> register_callback -> Pilot._update is driven '
+         'for 1..2 pilots with a symbolic current pilot state and removal.',
     note='Trusted: CrossHair/z3 path exhaustion; TaskManager.advance replaced by a '
          'recorder, Pilot facade by an object with uid/state; bound: 1 arbitrary task '
          '+ 3 fixed bystanders (quick), 2 arbitrary tasks (thorough), 2 pilots.',
@@ -47,11 +49,14 @@ CLAIMS = {
          '(_check_lifetime, stop, _control_cb, control_cb, _ctrl_cancel_pilots, '
          'finalize) with start time, run time and event times as symbolic integers '
          'and a symbolic pair of termination events; the state written to '
-         'killme.signal and published is compared with the cause.',
+         'killme.signal and published is compared with the cause; (P3) two threads '
+         'delivering notifications for the same pilot through _update_pilot turned '
+         'into coroutines (cooperative _pilots_lock, symbolic pre-emption points).',
     note='Trusted: CrossHair/z3 path exhaustion; fake clock, in-memory killme.signal, '
          'recorders for session/rm/publish/advance; bootstrap_0.sh (forwards the '
          'signal file) not covered; one pilot per notification message; at most 2 '
-         'notifications / 2 termination events.',
+         'notifications / 2 termination events; 2 threads with <= 1 (thorough 2) '
+         'pre-emptions.',
     design='4/C14'),
  'C19': dict(
     text='Bounded symbolic execution of the real TaskDescription / PilotDescription '
@@ -63,9 +68,11 @@ CLAIMS = {
          'index sets as bit masks in four entry forms; asserts required-attribute '
          'enforcement, alias mapping, idempotence of verify() and dict round trip, '
          'index preservation of the slot conversions.',
-    note='Trusted: CrossHair/z3 path exhaustion. Outside the claim: PythonTask / '
-         'serialize_obj (dill/msgpack C extensions: CrossHair concretises there, '
-         'nothing would be symbolic); gpu_processes only with a concrete value (float '
+    note='Trusted: CrossHair/z3 path exhaustion. PythonTask encode/decode is driven '
+         'with a symbolic argument shape (positional / keyword / both / none) through '
+         'the real dill + base64 transport (concrete there); every TaskDescription '
+         'attribute keeps its value through verify() (h_td_values).  Outside the '
+         'claim: gpu_processes only with a concrete value (float '
          'of a symbolic int is inconclusive); new->old->new composition (the old form '
          'produced by convert_slots_to_old is not an input form of '
          'convert_slots_to_new).',
@@ -81,7 +88,7 @@ CLAIMS = {
          'with the pre-state: only free cells, no cell twice, GPU shares per GPU <= '
          '1, lfs/mem within what is left, DOWN never handed out, map afterwards == '
          'map before + grant.  One step from an arbitrary state covers histories of '
-         'any length.',
+         'any length.  A failed client-side find_slots leaves the node list untouched.',
     note='Trusted: CrossHair/z3 path exhaustion; _log/_prof/pprint stubs, mp.Queue -> '
          'in-memory queue, advance -> recorder.  Bounds: 1 node x 2..4 cores x 1..2 '
          'GPUs for _find_resources; 2 nodes x 2 cores x 1 GPU for schedule_task; ranks '
@@ -127,7 +134,8 @@ CLAIMS = {
          '_unschedule_completed/_try_allocation/lazy_bisect/_control_cb/is_canceled; '
          'after every iteration each task is in exactly one place and reported at most '
          'once, at rest the liveness clauses are checked against an independent '
-         'fits-the-free-map oracle; a second harness checks the priority clause.',
+         'fits-the-free-map oracle (cores, GPUs and memory); a second harness checks the '
+         'priority clause.',
     note='Trusted: CrossHair/z3 path exhaustion; slice validated to contain the three '
          'sub-steps; control thread interleaves only at queue boundaries. Bounds: 1 node '
          'x 4 cores (thorough also 2 x 2), <= 3 events (thorough 4), scattered mode; '
@@ -150,7 +158,8 @@ CLAIMS = {
          '(quick: second within 8 steps; 1 for the launch harness); fake process / '
          'os.killpg / script writers / find_launcher; faults after spawn, the '
          '_to_watcher loop itself (a second cancel_task caller stands in for it) and '
-         'the NOOP/Flux/Dragon executors are outside.',
+         'the Flux/Dragon executors are outside.  The NOOP executor (work / _collect as '
+         'coroutines, fake clock) is covered by h_noop.',
     design='4/C07, 3.1'),
  'C08': dict(
     text='Bounded symbolic execution of the real cancel paths at the three places a '
@@ -160,7 +169,8 @@ CLAIMS = {
          'of C07 with a named task and a bystander under a symbolic schedule.  Each '
          'history is run twice, with and without the request: the bystander must end '
          'up with the same reports / hand-over and keep its resources, the named task '
-         'is canceled exactly once unless already finished.',
+         'is canceled exactly once unless it had finished before the request was seen; '
+         'requests naming several uids (unknown ones first) are covered.',
     note='Trusted: as C04 and C07. Bounds: <= 3 tasks, 1 node x 4 cores, <= 3 events, '
          '<= 2 pre-emptions (quick 1); client-side TaskManager.cancel_tasks message '
          'construction and the tmgr-side components are outside.',
@@ -175,7 +185,8 @@ CLAIMS = {
          "pilot's role and state at that moment: exactly one forward per task, named -> "
          'that pilot after it was added, unnamed -> a currently added pilot, waiting '
          'otherwise, round-robin spread <= 1, backfilling window / high-water mark / '
-         'usage returning to zero.',
+         'usage returning to zero (also for tasks bound early to a named pilot and for '
+         'assigned cores exactly at the high-water mark).',
     note='Trusted: CrossHair/z3 path exhaustion; session sandbox getters stubbed, locks '
          'no-op. Bounds: 2 pilots, <= 3 tasks per batch, 3 events (thorough 4), tasks of '
          '2 cores, pilots of 1..8 cores (concrete table: hwm uses float arithmetic).',
@@ -188,7 +199,9 @@ CLAIMS = {
          'origin marker (absent/own/other side/foreign) of up to two messages are solver '
          'variables; per-side delivery counts are checked after the network has run to '
          'quiescence under a hop budget; a second harness runs the real Agent/'
-         'ClientComponent.advance -> publish and injects the produced message.',
+         'ClientComponent.advance -> publish and injects the produced message; a third '
+         'delivers flagged messages while a forwarder is half wired (subscriber live, '
+         'publisher not yet).',
     note='Trusted: CrossHair/z3 path exhaustion; ZMQ pubsub modelled as exactly-once '
          'delivery per subscriber; proxy.py (the bridge processes themselves) and task '
          'queues are outside.',
@@ -208,8 +221,10 @@ CLAIMS = {
          'concretely through the real Session.get_resource_config and the factory '
          'tables (finite enumeration, stated as such).',
     note='Trusted: z3 4.x/5.x NIA/LRA verdicts (unknown is reported as inconclusive); '
-         'float division treated as real division (operands < 2^26: one rounding cannot '
-         'cross an integer boundary of such quotients - argued, not solver-checked); '
+         'float division treated as real division: Lemma F (QF_BVFP, z3 Float64: '
+         'ceil(a / b) in binary64 equals the integer ceiling for all 1 <= b <= 2^k, 0 <= '
+         'a <= b * 2^k) is discharged for k = 6 (quick) / k = 12 (thorough), larger '
+         'operands are argued, not solver-checked; '
          'statements the evaluator cannot interpret make their targets unknown and the '
          'run fails if a needed output is lost; PilotDescription.verify() preconditions '
          'assumed.',
@@ -227,7 +242,8 @@ CLAIMS = {
          'variables; the resulting RMInfo is checked (one entry per distinct usable '
          'host, unique indices, configured cell counts with exactly the blocked cells '
          'DOWN, reserved nodes disjoint from the offered list, 1 <= |node_list| <= '
-         'requested nodes, registry round trip).',
+         'requested nodes, derived node count for core- and GPU-bound requests, registry '
+         'round trip).',
     note='Trusted: CrossHair/z3 path exhaustion; environment, node files, ssh probes '
          'faked (all backup nodes reachable); ru.get_hostlist real. Bounds: <= 4 hosts, '
          '<= 5 node file lines, <= 4 cores, <= 2 GPUs per node. PBSPro (qstat), CCM '
@@ -245,7 +261,9 @@ CLAIMS = {
          'for all 8 mode values; (X1) Worker._dispatch_func/_dispatch_eval/_dispatch_exec '
          'with payloads that return a symbolic integer, print, write stderr, raise or '
          'modify os.environ: exit code 0 iff success, value/output/exception reported, '
-         'environment and stdio restored.',
+         'environment and stdio restored; (X2) the whole chain _alloc -> _dispatch / '
+         '_worker_proc -> result queue -> _result_cb -> Master._result_cb for 7 kinds '
+         'of request incl. failures raised out of the dispatcher.',
     note='Trusted: CrossHair/z3 path exhaustion; multiprocessing.Process faked; '
          'demands within the worker size; _dispatch_proc/_dispatch_shell (real '
          'sub-processes), MPI workers and request time-outs are outside.',
@@ -262,8 +280,10 @@ CLAIMS = {
          'independence); can_launch / ResourceManager.find_launcher must refuse what a '
          'method cannot place; 41..44 ranks cross the literal host-list thresholds.',
     note="Trusted: CrossHair/z3 path exhaustion; the readers encode the launchers' "
-         'documented option syntax; ibrun -o offset semantics, JSRUN/ERF, PRTE, Flux, '
-         'Dragon, mpirun_dplace are outside the claim.',
+         'documented option syntax (ibrun: task offset = position of the first used core '
+         'in allocation order); 43..45 distinct nodes cross the srun host-file '
+         'threshold; JSRUN/ERF, PRTE, Flux, Dragon, mpirun_dplace are outside the '
+         'claim.',
     design='4/C09'),
  'C10': dict(
     text='Bounded symbolic execution of the real script construction code: (Q1) '
@@ -311,7 +331,8 @@ CLAIMS = {
          '(agent-side FAILED/CANCELED handed to the client in full, once, not pushed), '
          'agent/tmgr output staging (final state == target state, FAILED if staging '
          'raised), TaskManager._update_tasks/Task._update (the published final state is '
-         'what the application sees), CANCELED only after a cancel request (C04/C07).',
+         'what the application sees), CANCELED only after a cancel request (C04/C07), '
+         'no task is left behind by the executor on any explored schedule.',
     note='The liveness half ("every task reaches exactly one final state as long as '
          'its pilot is alive") over ten OS processes and arbitrary ZMQ delivery orders '
          'cannot be encoded and is NOT claimed; the lemmas compose under the base-class '
